@@ -216,6 +216,13 @@ def by6(ctx):
     ctx.check(bool(ws) and bool(adds) and r_w == r_a, '%s:offset-pairs-write' % b.path, where(b, (ws or [b.entry])[0]),
               'offset += buf.len() and write_all(buf) lie on the same success paths',
               'the write offset and the bytes written can diverge (a success path has one without the other): roll-over and padding decisions would be taken on a wrong cursor')
+    # an Ok return without a write happens only for an empty buffer
+    r0 = b.reach([b.entry], avoid=ws)
+    silent = [e for e in exits if e in r0]
+    empt = list(b.switches_on_call(lambda c: c.name.endswith('<impl [u8]>::is_empty') or c.name.endswith('::is_empty')))
+    ok_silent = all(any(b.edge_dominates(te, e) for (_bi, _c, te, _fe, _cs) in empt) for e in silent)
+    ctx.check(ok_silent, '%s:silent-only-if-empty' % b.path, where(b, (silent or [b.entry])[0]), 'Ok without a write only on the `buf.is_empty()` edge',
+              'the block writer can return Ok without writing a non-empty buffer (inverted / missing emptiness test): bytes counted by the callers never reach the WAL')
     # the written buffer is the parameter
     okbuf = False
     for (p, e, cs) in ctx.E.direct_sites(b):
